@@ -1225,3 +1225,92 @@ func init() {
 		},
 	})
 }
+
+func init() {
+	register(&Rule{
+		Name:   "STALE-LEN",
+		Floor:  0,
+		ZeroOK: true,
+		Doc:    "inside a loop that grows a byte slice by appending to it, the slice's length measured BEFORE the loop is not used (as an offset that is recorded or indexed with): the start offset of each appended piece is the length after the previous append, so it has to be taken inside the loop",
+		Run: func(c *Ctx, scope string, r *Report) {
+			for _, fn := range c.srcFns {
+				for _, h := range fn.Blocks {
+					if !isLoopHeader(h) {
+						continue
+					}
+					body := loopBody(h)
+					// locations (field / cell access paths) of byte slices that grow in the loop
+					grown := map[string]bool{}
+					for b := range body {
+						for _, ins := range b.Instrs {
+							st, ok := ins.(*ssa.Store)
+							if !ok || !isByteSlice(st.Val.Type()) {
+								continue
+							}
+							call, ok := st.Val.(*ssa.Call)
+							if !ok {
+								continue
+							}
+							if bi, ok := call.Call.Value.(*ssa.Builtin); !ok || bi.Name() != "append" {
+								continue
+							}
+							if ld, ok := call.Call.Args[0].(*ssa.UnOp); ok && ld.Op == token.MUL && accessPath(ld.X) == accessPath(st.Addr) {
+								grown[accessPath(st.Addr)] = true
+							}
+						}
+					}
+					if len(grown) == 0 {
+						continue
+					}
+					// len(<load of a grown location>) computed outside the loop …
+					for _, b := range fn.Blocks {
+						if body[b] {
+							continue
+						}
+						for _, ins := range b.Instrs {
+							call, ok := ins.(*ssa.Call)
+							if !ok {
+								continue
+							}
+							bi, ok := call.Call.Value.(*ssa.Builtin)
+							if !ok || bi.Name() != "len" {
+								continue
+							}
+							ld, ok := call.Call.Args[0].(*ssa.UnOp)
+							if !ok || ld.Op != token.MUL || !grown[accessPath(ld.X)] || !b.Dominates(h) {
+								continue
+							}
+							// … and used inside it
+							var usedIn ssa.Instruction
+							seen := map[ssa.Value]bool{}
+							var walk func(v ssa.Value, d int)
+							walk = func(v ssa.Value, d int) {
+								if seen[v] || d > 4 || v.Referrers() == nil || usedIn != nil {
+									return
+								}
+								seen[v] = true
+								for _, ref := range *v.Referrers() {
+									if body[ref.Block()] {
+										if _, isPhi := ref.(*ssa.Phi); isPhi && ref.Block() == h {
+											continue // only the initial value of a loop-carried variable
+										}
+										usedIn = ref
+										return
+									}
+									if cv, ok := ref.(*ssa.Convert); ok {
+										walk(cv, d+1)
+									}
+								}
+							}
+							walk(call, 0)
+							key := fnName(fn) + "/len-before-loop-" + strings.TrimPrefix(accessPath(ld.X), "*")
+							if usedIn != nil {
+								r.bad(key, fnName(fn), c.pos(usedIn.Pos()), "the length of "+strings.TrimPrefix(accessPath(ld.X), "*")+" is measured before the loop (at "+c.pos(call.Pos())+") but used inside the loop that appends to it: every piece appended after the first is recorded with the first piece's start offset")
+							}
+						}
+					}
+				}
+			}
+		},
+	})
+}
